@@ -116,26 +116,45 @@ class Canon:
         self._param_busy: Set[str] = set()
         # a local whose only definitions are the arms of one if / elif / else (x = A if c else B written as a statement) reads as that
         # conditional expression
+        def arm_value(block, name):
+            """The value bound to `name` by the ONE top-level assignment to it in `block` (other statements of the arm may surround it)."""
+            hits = [st for st in block if isinstance(st, ast.Assign) and len(st.targets) == 1 and isinstance(st.targets[0], ast.Name)
+                    and st.targets[0].id == name]
+            nested = [x for st in block if st not in hits for x in ast.walk(st)
+                      if isinstance(x, ast.Name) and x.id == name and isinstance(x.ctx, ast.Store)]
+            # the arm must consist of that assignment alone: an arm that also validates / computes other things is a branch of the
+            # algorithm, not a two-way definition (its local keeps the `local<..>` name, like on the reviewed tree)
+            return hits[0].value if len(hits) == 1 and not nested and len(block) == 1 else None
+
         def arms(node, name):
-            """(IfExp, number of assignments) when `node` is an if-chain whose every arm is exactly `name = <expr>`."""
-            if not (isinstance(node, ast.If) and len(node.body) == 1 and len(node.orelse) == 1):
+            """(IfExp, number of assignments) when `node` is an if / elif / else chain whose every arm binds `name` exactly once."""
+            if not (isinstance(node, ast.If) and node.orelse):
                 return None
-            b, o = node.body[0], node.orelse[0]
-            if not (isinstance(b, ast.Assign) and len(b.targets) == 1 and isinstance(b.targets[0], ast.Name) and b.targets[0].id == name):
+            b = arm_value(node.body, name)
+            if b is None:
                 return None
-            if isinstance(o, ast.Assign) and len(o.targets) == 1 and isinstance(o.targets[0], ast.Name) and o.targets[0].id == name:
-                return ast.IfExp(test=node.test, body=b.value, orelse=o.value), 2
-            sub = arms(o, name)
-            if sub is None:
-                return None
-            return ast.IfExp(test=node.test, body=b.value, orelse=sub[0]), 1 + sub[1]
+            o = arm_value(node.orelse, name)
+            if o is not None:
+                return ast.IfExp(test=node.test, body=b, orelse=o), 2
+            if len(node.orelse) == 1:
+                sub = arms(node.orelse[0], name)
+                if sub is not None:
+                    return ast.IfExp(test=node.test, body=b, orelse=sub[0]), 1 + sub[1]
+            return None
         for n in walk_no_nested(fn):
-            if isinstance(n, ast.If) and len(n.body) == 1 and isinstance(n.body[0], ast.Assign) and len(n.body[0].targets) == 1 \
-                    and isinstance(n.body[0].targets[0], ast.Name):
-                nm = n.body[0].targets[0].id
-                got = arms(n, nm)
-                if got is not None and counts.get(nm) == got[1] and nm not in self.params and nm not in self.loopnames:
-                    self.single[nm] = got[0]
+            if isinstance(n, ast.If) and n.orelse:
+                for st in n.body:
+                    if isinstance(st, ast.Assign) and len(st.targets) == 1 and isinstance(st.targets[0], ast.Name):
+                        nm = st.targets[0].id
+                        if nm in self.single or counts.get(nm, 0) < 2 or nm in self.params or nm in self.loopnames:
+                            continue
+                        got = arms(n, nm)
+                        # re-bindings that only wrap the value (x = int(x)) do not count
+                        all_defs = [a.value for a in walk_no_nested(fn) if isinstance(a, ast.Assign) and len(a.targets) == 1
+                                    and isinstance(a.targets[0], ast.Name) and a.targets[0].id == nm]
+                        plain = [d for d in all_defs if not any(isinstance(x, ast.Name) and x.id == nm for x in ast.walk(d))]
+                        if got is not None and len(plain) == got[1] and counts.get(nm) == len(all_defs):
+                            self.single[nm] = got[0]
         # locals assigned more than once: named after their FIRST definition, so that renaming them changes no key
         self.multi_first: Dict[str, ast.expr] = {}
         self.multi_defs: Dict[str, List[ast.expr]] = {}
@@ -169,6 +188,18 @@ class Canon:
             if counts.get(k, 0) == 0:
                 self.single[k] = v
         self._cache: Dict[str, str] = {}
+
+    def definition(self, name: str) -> Optional[ast.expr]:
+        """The defining expression of a local that reads like one: singly assigned, or with exactly one definition that does not mention
+        the local itself (x = e; ...; x = int(x))."""
+        if name in self.loopvars or name in self.params and name not in self.single:
+            return None
+        if name in self.single:
+            return self.single[name]
+        base = [d for d in self.multi_defs.get(name, []) if not self._mentions(d, name)]
+        if len(base) == 1 and name not in self.with_defs and name not in self.loopnames:
+            return base[0]
+        return None
 
     def _mentions(self, d: ast.AST, name: str, depth: int = 3) -> bool:
         """d reads `name`, directly or through single-assignment locals (x = f(name); y = g(x)  =>  y mentions name)."""
@@ -436,6 +467,21 @@ def atoms_of(test: ast.expr, truth: bool, c: Canon) -> List[FrozenSet[Atom]]:
         return out
     if isinstance(test, ast.Call) and isinstance(test.func, ast.Name) and test.func.id in ("all", "any") and len(test.args) == 1 \
             and not test.keywords and isinstance(test.args[0], (ast.GeneratorExp, ast.ListComp)) and len(test.args[0].generators) == 1 \
+            and not test.args[0].generators[0].ifs and (test.func.id == "any") != truth:
+        # universal reading:  all(P(x) for x in X)  ~  not any(not P(x) ..)  :  forall(<P of each(X)>), one atom per conjunct of P
+        comp = test.args[0]
+        g = comp.generators[0]
+        names = [x.id for x in ast.walk(g.target) if isinstance(x, ast.Name)]
+        if not any(nm in c.params for nm in names):
+            c.push_loop(g.target, g.iter)
+            try:
+                inner = atoms_of(comp.elt, test.func.id == "all", c)
+            finally:
+                c.pop_loop()
+            if len(inner) == 1 and inner[0]:
+                return [frozenset(f"forall({a})" for a in inner[0])]
+    if isinstance(test, ast.Call) and isinstance(test.func, ast.Name) and test.func.id in ("all", "any") and len(test.args) == 1 \
+            and not test.keywords and isinstance(test.args[0], (ast.GeneratorExp, ast.ListComp)) and len(test.args[0].generators) == 1 \
             and not test.args[0].generators[0].ifs and (test.func.id == "any") == truth:
         # existential reading:  not all(P(x) for x in X)  ~  any(not P(x) for x in X)  ~  `for x in X: if not P(x): ...`
         comp = test.args[0]
@@ -537,9 +583,10 @@ def _split_conditional(test: ast.expr, c: "Canon"):
         for n in ast.walk(e):
             if isinstance(n, ast.IfExp):
                 return True
-            if depth < 3 and isinstance(n, ast.Name) and isinstance(n.ctx, ast.Load) and n.id in c.single and n.id not in c.loopvars \
-                    and n.id not in seen and has_cond(c.single[n.id], depth + 1, seen + (n.id,)):
-                return True
+            if depth < 3 and isinstance(n, ast.Name) and isinstance(n.ctx, ast.Load) and n.id not in seen:
+                d = c.definition(n.id)
+                if d is not None and has_cond(d, depth + 1, seen + (n.id,)):
+                    return True
         return False
 
     if not has_cond(test):
@@ -550,9 +597,10 @@ def _split_conditional(test: ast.expr, c: "Canon"):
             self.depth, self.seen = depth, seen
 
         def visit_Name(self, n):
-            if self.depth < 3 and isinstance(n.ctx, ast.Load) and n.id in c.single and n.id not in c.loopvars and n.id not in self.seen \
-                    and has_cond(c.single[n.id], self.depth + 1, self.seen + (n.id,)):
-                return Expand(self.depth + 1, self.seen + (n.id,)).visit(copy.deepcopy(c.single[n.id]))
+            if self.depth < 3 and isinstance(n.ctx, ast.Load) and n.id not in self.seen:
+                d = c.definition(n.id)
+                if d is not None and has_cond(d, self.depth + 1, self.seen + (n.id,)):
+                    return Expand(self.depth + 1, self.seen + (n.id,)).visit(copy.deepcopy(d))
             return n
 
         def visit_Lambda(self, n):
@@ -699,6 +747,8 @@ def _lit(test: ast.expr, truth: bool, c: Canon) -> Atom:
             return f"{'' if pos else '!'}is({a}, {b})"
     if isinstance(test, ast.Call) and isinstance(test.func, ast.Name) and test.func.id == "isinstance" and len(test.args) == 2:
         ty = test.args[1]
+        if isinstance(ty, ast.Name) and isinstance(c.definition(ty.id), ast.Tuple):
+            ty = c.definition(ty.id)          # a named tuple of accepted classes
         names = sorted((dotted(x) or ast.unparse(x)).split(".")[-1] for x in (ty.elts if isinstance(ty, ast.Tuple) else [ty]))
         return f"{'' if truth else '!'}isinstance({c.text(test.args[0])}, {'|'.join(names)})"
     if isinstance(test, ast.Constant):
@@ -1094,6 +1144,12 @@ def _consistent(s: FrozenSet[Atom]) -> bool:
     for i, a in enumerate(items):
         for b in items[i + 1:]:
             if contradicts(a, b):
+                return False
+    # forall(P(each(X))) together with atoms that deny P for an element of X
+    for a in items:
+        if a.startswith("forall(") and a.endswith(")"):
+            rest = frozenset(x for x in s if x != a)
+            if rest and not _consistent(rest | {a[len("forall("):-1]}):
                 return False
     # isinstance(x, A|B) with every one of its types excluded
     for a in items:
